@@ -10,7 +10,8 @@
             | ["head_fail", b] | ["attr_fail", b] | ["versioning", b] | ["algos", [..]]
    One snapshot after construction and one after every command:
      [result|null, policy, sets, n_etag, n_load, last_etag|null, last_error,
-      [num, den] suppress_until, [num, den] backoff, [thread results|null ...]] *)
+      [num, den] suppress_until, [num, den] backoff, [thread results|null ...],
+      source-specific: null | HTTP [remembered ETag|null, number of 304 answers]] *)
 From Coq Require Import List Bool String ZArith QArith.
 From Rbacx Require Import Value Wire Reload Sources.
 Import ListNotations.
@@ -128,12 +129,13 @@ Definition enc_tag (t : tag) : value :=
 Definition enc_q (q : Q) : value :=
   let r := Qred q in VList [vint (Qnum r); vint (Zpos (Qden r))].
 
-Definition snapshot {St} (res : option bool) (cf : conf world St) : value :=
+Definition snapshot {St} (obs : St -> value) (res : option bool) (cf : conf world St) : value :=
   let s := cs cf in
   VList [vopt vbool res; vnat (policy (gd s)); vnat (sets (gd s)); vnat (n_etag s); vnat (n_load s);
          vopt enc_tag (last_etag (rl s)); vbool (last_error (rl s));
          enc_q (suppress_until (rl s)); enc_q (backoff (rl s));
-         VList (map (fun p => vopt vbool (result p)) (thr cf))].
+         VList (map (fun p => vopt vbool (result p)) (thr cf));
+         obs (sst s)].
 
 Definition mid_fun (m : option event) : world -> world :=
   match m with Some e => apply_ev e | None => fun w => w end.
@@ -149,17 +151,21 @@ Definition run_cmd {St} (c : cfg) (src : source world St) (cf : conf world St) (
   | CStep i now u => (exec c src cf (LStep i now u), None)
   end.
 
-Fixpoint run_script {St} (c : cfg) (src : source world St) (cf : conf world St) (ks : list cmd)
-  : list value :=
+Fixpoint run_script {St} (obs : St -> value) (c : cfg) (src : source world St) (cf : conf world St)
+                    (ks : list cmd) : list value :=
   match ks with
   | [] => []
-  | k :: r => let (cf', res) := run_cmd c src cf k in snapshot res cf' :: run_script c src cf' r
+  | k :: r => let (cf', res) := run_cmd c src cf k in snapshot obs res cf' :: run_script obs c src cf' r
   end.
 
-Definition run_all {St} (c : cfg) (src : source world St) (st0 : St) (il async : bool) (p0 : doc)
-                   (w : world) (ks : list cmd) : value :=
+Definition run_all {St} (obs : St -> value) (c : cfg) (src : source world St) (st0 : St) (il async : bool)
+                   (p0 : doc) (w : world) (ks : list cmd) : value :=
   let cf := {| cs := init c src il async p0 w st0; thr := [] |} in
-  VList (snapshot None cf :: run_script c src cf ks).
+  VList (snapshot obs None cf :: run_script obs c src cf ks).
+
+(* source-specific observables: HTTP: the remembered ETag and the number of 304 answers *)
+Definition obs_none {St} (_ : St) : value := VNull.
+Definition obs_http (st : hsrc) : value := VList [vopt enc_tag (h_etag st); vnat (h_n304 st)].
 
 Definition dec_gmode (n : nat) : gmode :=
   match n with 0%nat => GContent | 1%nat => GVersion | 2%nat => GNoTag | _ => GNonStr end.
@@ -173,25 +179,25 @@ Definition run_reload (args : list value) : value :=
           match kind with
           | VList [VStr "gen"; m] =>
               match dec_nat m with
-              | Some m' => run_all c (gen_source (dec_gmode m')) tt il' asy' p0' w ks
+              | Some m' => run_all obs_none c (gen_source (dec_gmode m')) tt il' asy' p0' w ks
               | None => vtag "ood" []
               end
           | VList [VStr "file"; incl] =>
               match dec_bool incl with
-              | Some i => run_all c (file_source i) {| fc_sig := None; fc_sha := None |} il' asy' p0' w ks
+              | Some i => run_all obs_none c (file_source i) {| fc_sig := None; fc_sha := None |} il' asy' p0' w ks
               | None => vtag "ood" []
               end
           | VList [VStr "http"; et] =>
               match dec_bool et with
-              | Some e => run_all c (http_source e) {| h_etag := None; h_cache := None |} il' asy' p0' w ks
+              | Some e => run_all obs_http c (http_source e) {| h_etag := None; h_cache := None; h_n304 := 0 |} il' asy' p0' w ks
               | None => vtag "ood" []
               end
           | VList [VStr "s3"; det; pref] =>
               let pr := match pref with VNull => None | _ => dec_nat pref end in
               match dec_nat det with
-              | Some 0%nat => run_all c (s3_source DEtag) tt il' asy' p0' w ks
-              | Some 1%nat => run_all c (s3_source DVid) tt il' asy' p0' w ks
-              | Some 2%nat => run_all c (s3_source (DCk pr)) tt il' asy' p0' w ks
+              | Some 0%nat => run_all obs_none c (s3_source DEtag) tt il' asy' p0' w ks
+              | Some 1%nat => run_all obs_none c (s3_source DVid) tt il' asy' p0' w ks
+              | Some 2%nat => run_all obs_none c (s3_source (DCk pr)) tt il' asy' p0' w ks
               | _ => vtag "ood" []
               end
           | _ => vtag "ood" []
